@@ -1,6 +1,6 @@
 (* C01 -- CFF outlines and advances equal the source with components resolved. *)
 From Coq Require Import QArith Qcanon Qround.
-From U2F Require Import Base.Prelude Geometry.Model Geometry.ModelProofs Geometry.Cff.
+From U2F Require Import Base.Prelude Geometry.Model Geometry.ModelProofs Geometry.Cff Geometry.PassProofs.
 Open Scope Qc_scope.
 
 (* The pen chain driven by decomposeCompositeGlyph (flat, composed matrices,
@@ -14,6 +14,20 @@ Theorem C01_decompose_is_resolve : forall fuel gs g,
   decompose fuel gs g = resolve (S fuel) gs g.
 Proof. exact decompose_resolve. Qed.
 Print Assumptions C01_decompose_is_resolve.
+
+(* The filter as BaseFilter drives it: glyph by glyph, IN PLACE (a base visited earlier is
+   already flat when a later composite uses it), in whatever order the glyph set iterates.
+   For every visiting order the pass raises nothing, keeps widths and anchors, and leaves every
+   visited glyph without components, holding exactly its nested resolved outline. *)
+Theorem C01_filter_pass_any_order : forall gs order,
+  wf_glyphset_P gs ->
+  (forall n g, assoc n gs = Some g -> resolve (S (fuel_for gs)) gs g <> None) ->
+  exists gs', decompose_pass (fuel_for gs) order gs = Some gs' /\
+    forall n g, assoc n gs = Some g ->
+      exists g', assoc n gs' = Some g' /\ gwidth g' = gwidth g /\ ganchors g' = ganchors g /\
+        (In n order -> gcomps g' = [] /\ Some (gcontours g') = resolve (S (fuel_for gs)) gs g).
+Proof. exact decompose_pass_resolve. Qed.
+Print Assumptions C01_filter_pass_any_order.
 
 Theorem C01_nested_flat : forall fuel gs a g,
   wf_glyphset_P gs -> wf_glyph_P g -> det a <> qc0 ->
